@@ -30,4 +30,38 @@ def upstreamFailHeight (outCltv d1 d2 : Nat) : Nat := confirmationThreshold (tim
     node itself goes on chain for the outbound HTLC. -/
 def lastMomentFulfil (outCltv : Nat) : Nat := outboundTrigger outCltv - 1
 
+/-! ### Intercepted HTLC held by the node (round 5) -/
+
+/-- mirrors channelmanager.rs do_chain_event, `pending_intercepted_htlcs.retain`: the node is told the heights `hs` one
+    after the other (single blocks or jumps) while it holds an intercepted HTLC with outgoing expiry `out`; the HTLC is
+    failed back at the FIRST delivered height at which the translated `interceptTimedOut` holds, `none` = still held. -/
+def interceptHold (out : Nat) (hs : List Nat) : Option Nat := hs.find? (fun h => interceptTimedOut h out)
+
+/-! ### Which HTLCs the monitor's on-chain trigger looks at (round 5) -/
+
+/-- the `offered` flag of an HTLC inside a commitment transaction is relative to the transaction's OWNER (chan_utils
+    HTLCOutputInCommitment::offered): an HTLC that WE offered has `offered = true` in our holder commitment and
+    `offered = false` in the counterparty's commitments. Hand-written fact about the data, not about the scan. -/
+def offeredIn (s : ScanSet) (weOffered : Bool) : Bool :=
+  match s with
+  | .holderCurrent => weOffered
+  | .counterpartyCurrent => !weOffered
+  | .counterpartyPrev => !weOffered
+
+/-- one HTLC as the monitor sees it: the set it sits in, who offered it, expiry, preimage known -/
+structure MonHtlc where
+  set : ScanSet
+  weOffered : Bool
+  cltv : Nat
+  preimage : Bool
+  deriving Repr, DecidableEq
+
+/-- mirrors should_broadcast_holder_commitment_txn as a whole: gate, then the translated `scanList` in source order, each
+    HTLC of the scanned set tested by the translated `shouldBroadcastFor` under the direction `scanHtlcOutbound` derives
+    from the set's `$holder_tx` flag. -/
+def monShouldBroadcast (spendConfirmed spendAwaiting : Bool) (height : Nat) (htlcs : List MonHtlc) : Bool :=
+  if broadcastGateClosed spendConfirmed spendAwaiting then false
+  else scanList.any (fun (s, holderTx) =>
+    htlcs.any (fun x => x.set == s && shouldBroadcastFor height x.cltv (scanHtlcOutbound holderTx (offeredIn s x.weOffered)) x.preimage))
+
 end Ldk.Timing
